@@ -5,6 +5,7 @@ package main
 
 import (
 	"fmt"
+	"os"
 	"go/constant"
 	"go/token"
 	"go/types"
@@ -74,6 +75,39 @@ func meetFacts(a, c map[*Term]*Term) map[*Term]*Term {
 	return n
 }
 
+// factOf: the constant a term is known to equal on the current path, or nil.
+func (x *Exec) factOf(t *Term) *Term {
+	if c, ok := x.curFacts[t]; ok {
+		return c
+	}
+	if t.Op == "not" {
+		if c, ok := x.curFacts[t.Args[0]]; ok {
+			return x.b.Not(c)
+		}
+	}
+	if t.S.K == 'b' && (t.Op == "and" || t.Op == "or") {
+		l, r := x.factOf(t.Args[0]), x.factOf(t.Args[1])
+		if l != nil || r != nil {
+			if l == nil {
+				l = t.Args[0]
+			}
+			if r == nil {
+				r = t.Args[1]
+			}
+			var n *Term
+			if t.Op == "and" {
+				n = x.b.And(l, r)
+			} else {
+				n = x.b.Or(l, r)
+			}
+			if n.Op == "true" || n.Op == "false" {
+				return n
+			}
+		}
+	}
+	return nil
+}
+
 // sel is Select refined by the facts of the current path: stores whose index
 // is known (by a path condition) to differ are skipped, and a cell whose value
 // is pinned by a path condition folds to that constant.
@@ -137,6 +171,7 @@ type Exec struct {
 	// spawned closures (go statements)
 	spawned []*FuncV
 
+	dbgDone   bool
 	curFacts  map[*Term]*Term
 	seedFacts map[*Term]*Term // facts implied by the hypotheses of the case (each is also an obligation of the split's own lemma)
 	notApplicable []string
@@ -490,7 +525,7 @@ func (x *Exec) run(fn *ssa.Function, args []Value, st *State, pcIn *Term) (Value
 		}
 		if len(x.curFacts) != 0 {
 			if t, ok := r.(*Term); ok {
-				if c, ok := x.curFacts[t]; ok {
+				if c := x.factOf(t); c != nil {
 					return c
 				}
 			}
@@ -683,6 +718,10 @@ func (x *Exec) run(fn *ssa.Function, args []Value, st *State, pcIn *Term) (Value
 				// path ends here
 			case *ssa.If:
 				c := get(i.Cond).(*Term)
+				if debugIf && fn.Name() == "executeOne" && c.Op != "true" && c.Op != "false" && !x.dbgDone {
+					x.dbgDone = true
+					fmt.Printf("DEBUG symbolic branch in executeOne: %s\n", dumpTerm(c, 6))
+				}
 				if loops != nil {
 					if loops.edge(blk, 0, b.And(pc, c), cur) {
 						setEdge(blk, blk.Succs[0], 0, edge{b.False(), cur})
@@ -1293,4 +1332,29 @@ func (x *Exec) lookup(i *ssa.Lookup, get func(ssa.Value) Value, st *State, pc *T
 	}
 	unsupported("Lookup on %T", get(i.X))
 	return nil
+}
+
+var debugIf = os.Getenv("VERIF_DEBUG_IF") != ""
+
+func dumpTerm(t *Term, depth int) string {
+	switch t.Op {
+	case "const":
+		return fmt.Sprintf("#%x", t.Val)
+	case "var":
+		return t.Name
+	case "true", "false":
+		return t.Op
+	}
+	if depth == 0 {
+		return "…"
+	}
+	var as []string
+	for _, a := range t.Args {
+		as = append(as, dumpTerm(a, depth-1))
+	}
+	op := t.Op
+	if op == "extract" {
+		op = fmt.Sprintf("extract[%d:%d]", t.Val>>16, t.Val&0xffff)
+	}
+	return "(" + op + " " + strings.Join(as, " ") + ")"
 }
